@@ -83,6 +83,7 @@ func (comp) Gen(prop string, rng *rand.Rand, tier string) *core.History {
 	for i := 0; i < nkeys; i++ {
 		alpha = append(alpha, keyTable[perm[i]])
 	}
+	alpha = core.WithLongKeys(rng, alpha, 12)
 	if core.Chance(rng, 1, 8) {
 		alpha = append(alpha, []byte{}) // the empty key is refused by every adding operation
 	}
@@ -103,7 +104,7 @@ func (comp) Gen(prop string, rng *rand.Rand, tier string) *core.History {
 		}
 	}
 	configOf(h, kind, span, alpha, expiry)
-	nops := 8 + rng.Intn(25)
+	nops := core.LongHistory(rng, 8+rng.Intn(25))
 	now := int64(0)
 	key := func() []byte { return core.Pick(rng, alpha) }
 	sp := func() int64 {
